@@ -632,14 +632,14 @@ pub fn check(ctx: &mut Ctx) -> Option<Meta> {
             let huge = || crate::zsthuge::strategy(false);
             ctx.run_campaign(&Campaign {
                 name: "seq-huge-zst".into(),
-                cases: scale_cases(ctx, PLAIN_BOOST * 20_000, 25),
+                cases: scale_cases(ctx, PLAIN_BOOST * 250_000, 10),
                 make_strategy: &huge,
                 run: &crate::c16::eval_c16,
                 rule: "slices and vectors of zero-sized elements with lengths up to usize::MAX, one-shot and buffered chunk pulls with boundary sizes, single pulls, length queries, skip, into_seq_iter; oracle: u128 cursor model, every result predicted exactly".into(),
             });
             ctx.run_campaign(&Campaign {
                 name: "seq-huge-zst-twins".into(),
-                cases: scale_cases(ctx, 4_000, 20),
+                cases: scale_cases(ctx, 20_000, 10),
                 make_strategy: &huge,
                 run: &twin,
                 rule: "the same in both overflow modes".into(),
@@ -724,7 +724,7 @@ pub fn check(ctx: &mut Ctx) -> Option<Meta> {
             });
             ctx.run_campaign(&Campaign {
                 name: "seq-multi-iterator-huge-zst".into(),
-                cases: scale_cases(ctx, PLAIN_BOOST * 50_000, 30),
+                cases: scale_cases(ctx, PLAIN_BOOST * 300_000, 10),
                 make_strategy: &|| crate::zsthuge::strategy(true),
                 run: &crate::multi::eval_c19,
                 rule: "the same history shape over &[()] / &Vec<()> of lengths up to usize::MAX (the only collections longer than isize::MAX), pulls with boundary chunk sizes; oracle: one u128 cursor per iterator, clones start at the original's position; non-trivial = >=2 iterators, >=2 pulls, >=1 clone".into(),
